@@ -356,6 +356,15 @@ class SStr:
 
     def encode(self, encoding="utf-8", errors="strict"):
         enc = encoding.lower().replace("_", "-")
+        if enc in ("ascii", "us-ascii", "latin-1", "latin1", "iso-8859-1"):
+            lim = 128 if enc.startswith(("ascii", "us-")) else 256
+            if errors != "strict":
+                raise Unsupported(f"encode({encoding!r}, errors={errors!r})")
+            for i, c in enumerate(self.items):
+                ok = c < lim if _real_isinstance(c, _real_int) else E().decide(c < lim)
+                if not ok:
+                    raise UnicodeEncodeError(enc, "?", i, i + 1, "ordinal not in range")
+            return V.mk_bytes(list(self.items))
         if enc not in ("utf-8", "utf8"):
             raise Unsupported(f"encode({encoding!r})")
         return V.mk_bytes(utf8_encode(self.items, errors))
@@ -512,6 +521,18 @@ def _rng(b, lo, hi):
     if _real_isinstance(b, _real_int):
         return lo <= b <= hi
     return E().decide(z3.And(b >= lo, b <= hi))
+
+
+def single_byte_decode(items, ascii_only, errors="strict"):
+    """bytes.decode('ascii' | 'latin-1')"""
+    if errors != "strict" and ascii_only:
+        raise Unsupported(f"decode('ascii', errors={errors!r})")
+    if ascii_only:
+        for i, c in enumerate(items):
+            ok = c < 128 if _real_isinstance(c, _real_int) else E().decide(c < 128)
+            if not ok:
+                raise UnicodeDecodeError("ascii", b"?", i, i + 1, "ordinal not in range(128)")
+    return mk_str(list(items))
 
 
 def utf8_decode(items, errors="strict"):
